@@ -208,15 +208,22 @@ def run(chk):
         except Exception as ex:
             found = repr(ex)[:120]
         chk.shape("R7", "ChildPath::get_child_path_str", verdict is True, verdict is False, ATTR, fg.line, "None = whole path, Some(d) = prefix of depth d (evaluated on a/a.b/a.b.c)", found=found)
-        for cfg in ("syn", "syn2"):
-            fp = repo.fn_opt(ATTR, "try_parse_child_parents", cfg=f'feature="{cfg}"')
-            if fp is None:
-                chk.bad("R7", f"try_parse_child_parents[{cfg}]", ATTR, 1, "parser of child_parents entries not found")
-                continue
-            src = render(fp.body).replace(" ", "")
-            ok = "field_path_str:child_path.to_token_stream().to_string().chars().filter(|c|!c.is_whitespace()).collect()" in src
-            chk.shape("R7", f"try_parse_child_parents[{cfg}]/key", ok, "field_path_str:" in src and "is_whitespace" not in src, ATTR, fp.line,
-                      "child_parents entries must be keyed by the whitespace-free dotted path (the form the prefixes are compared in)", found=src[-200:])
+        # child_parents entries are keyed by the whitespace-free dotted path: wherever in attr.rs a ChildParentData is built
+        lits = [(fn_, n) for fn_ in repo.fns(ATTR) for n in walk(fn_.body) if n["k"] == "Struct" and (n.get("path") or "").replace(" ", "").endswith("ChildParentData")
+                and any(f_["member"] == "field_path_str" for f_ in n["fields"])]
+        if not lits:
+            chk.inconc("R7", "no ChildParentData { field_path_str: .. } literal found in attr.rs")
+        seen_k = {}
+        for fn_, n in lits:
+            ex = [f_["expr"] for f_ in n["fields"] if f_["member"] == "field_path_str"][0]
+            txt = render(ex).replace(" ", "")
+            cfgk = fn_.cfg_feature() or "any"
+            o = seen_k.get(cfgk, 0)
+            seen_k[cfgk] = o + 1
+            good = "is_whitespace" in txt or re.search(r"replace\(['\"] ['\"],\"\"\)", txt) is not None
+            bad = not good and re.fullmatch(r"\w+\.to_token_stream\(\)\.to_string\(\)", txt) is not None
+            chk.shape("R7", f"try_parse_child_parents[{cfgk}]/key" + (f"#{o}" if o else ""), good, bad, ATTR, n["line"],
+                      what="child_parents entries must be keyed by the whitespace-free dotted path (the form the prefixes are compared in)", found=txt[:120])
     chk.guard("R7", r7)
     from .c05 import import_lookup_contracts
     chk.guard("R8", lambda: import_lookup_contracts(chk, "R8", ["child", "child_parents_attr", "parameterized_parent_attr", "has_parent_attr", "has_parameterless_parent_attr"], with_chain=False))
